@@ -199,6 +199,9 @@ def run_federated_experiment(
   client_sampler.set_round_num(start_round_num)
 
   start = time.time()
+  # The last completed round. Stays at this value when the loop body never runs
+  # (e.g. resuming from a checkpoint of the final round, or num_rounds == 0).
+  round_num = start_round_num - 1
   for round_num in range(start_round_num, config.num_rounds + 1):
     # Get a random state and randomly sample clients.
     clients = client_sampler.sample()
